@@ -10,6 +10,7 @@
 //	ec p o | hk p | sn o | sd o | er p o | rs o | w o v | cm | d o | fl | tc t | tr t | bl p | bs t | st o v | sx o
 //	end
 //	model <witness>            (forced schedules only: the model's trace on the Lean witness schedule)
+//	wconf b=<batch> <rs.o|w.o.v|cm|d.o ...>   (the writer goroutine's events: must be a run of the model's writer)
 //
 // Answers: `ok` while the predicate holds, `reject <why>` from the first offending event on,
 // `accept`/`reject <why>` for `end`.  With --replay only the cfg line is an input; the scenario it
@@ -1071,6 +1072,16 @@ func emit(r *hx.Run, sub uint64, res result) (failed bool) {
 		}
 		r.Line(fmt.Sprintf("model %s q=%d p=%d", res.c.kind, mq, res.c.p), projections(res.ev, res.c.p, max(1, res.c.ns)))
 	}
+	// writer conformance: the events of the real writer goroutine, in order; the Lean driver drives the model's
+	// own writer (stepWriter) with them and answers `conforms` iff the model can emit exactly this sequence
+	var wev []string
+	for _, l := range res.ev {
+		switch parseEv(l).k {
+		case "rs", "w", "cm", "d":
+			wev = append(wev, strings.ReplaceAll(l, " ", "."))
+		}
+	}
+	r.Line(strings.TrimSpace(fmt.Sprintf("wconf b=%d %s", res.c.b, strings.Join(wev, " "))), "conforms")
 	r.Count("kind:" + res.c.kind)
 	if res.c.uq == 1 {
 		r.Count("q:unbuffered")
